@@ -181,6 +181,12 @@ pub fn functions(tier: Tier) -> Vec<FnRep> {
     if t {
         base.extend(gen_polynomial(&few, &[1.0, -0.5], 3));
     }
+    // explicit-zero entries / zero-coefficient terms that mention a parameter: after instantiation the
+    // function must not mention the parameter any more (it could not be evaluated at x otherwise)
+    base.push(FnRep::Quad { entries: vec![(7, 1, 0.0)], lin: Some((vec![], 2.0)) });
+    base.push(FnRep::Quad { entries: vec![(1, 7, 0.0), (7, 7, 0.0)], lin: None });
+    base.push(FnRep::Poly { terms: vec![(vec![7, 1], 0.0), (vec![], 2.0)] });
+    base.push(FnRep::Lin { terms: vec![(7, 0.0)], c: 1.5 });
     let mut out: Vec<FnRep> = base.iter().map(|f| rename(f, &|i| if i == 7 { 10 } else { i })).collect();
     // 4- and 5-term linear functions in every order of the ids (so the term list is longer than
     // the parameter assignment and unsorted), also inside a quadratic's linear part
